@@ -68,11 +68,23 @@ def check_placement(ctx, src, funcs, rule="PLACEMENT", comp=None, facts=None):
                 ctx.ok(rule, k, "as reviewed")
             else:
                 what = "statements" if key[1] == "stmts" else "value"
-                where = "are hoisted to the level of the construct itself (they run unconditionally, before it)" if key[2] == "top" and key[1] == "stmts" \
-                    else f"now reach {key[2]}"
                 allowed = sorted(s for (i, kk, s) in want if i == key[0] and kk == key[1])
-                ctx.bad(rule, k, f"the {what} of sub-form `{role.split(':')[1]}` {where}; the reviewed placements are {allowed}", compq.RM, 0,
-                        witness="a statement-producing / side-effecting form in that slot is evaluated in the wrong place (wrong branch, wrong order or unconditionally)")
+                # Only two kinds of new placement are reported, because they are what a misplacement looks like and the
+                # engine resolves them exactly: statements hoisted to the level of the construct although every reviewed
+                # placement is inside a branch, and a sub-form landing in the sibling field of the reviewed one
+                # (body <-> orelse, handlers <-> finalbody).  Any other new sink is a flow the engine labels differently
+                # after a restructuring: unresolved.
+                hoisted = key[1] == "stmts" and key[2] == "top" and allowed and "top" not in allowed
+                sibling = any(a.split(".")[0] == key[2].split(".")[0] and a != key[2] and {a.split(".")[-1], key[2].split(".")[-1]} <= {"body", "orelse", "finalbody", "handlers"}
+                              for a in allowed if "." in a and "." in key[2])
+                if hoisted:
+                    ctx.bad(rule, k, f"the statements of sub-form `{role.split(':')[1]}` are hoisted to the level of the construct itself (they run unconditionally, before it); the reviewed placements are {allowed}",
+                            compq.RM, 0, witness="a statement-producing / side-effecting form in that slot is evaluated unconditionally instead of inside its branch")
+                elif sibling:
+                    ctx.bad(rule, k, f"the {what} of sub-form `{role.split(':')[1]}` now reach {key[2]}; the reviewed placements are {allowed}", compq.RM, 0,
+                            witness="the sub-form runs in the wrong branch / clause")
+                else:
+                    ctx.unres(rule, k, f"new placement of the {what} of sub-form `{role.split(':')[1]}` in {key[2]} (reviewed: {allowed})")
         for key, role in sorted(want.items()):
             if key not in got:
                 k = f"{fn}|slot {role}|{key[1]}|{key[2]}|missing"
